@@ -1,6 +1,7 @@
 -- C10: Merkle openings verify for committed leaves and only for them (property theorems)
 import WinterProofs.Lemmas.C10Single
 import WinterProofs.Lemmas.C10Bind
+import WinterProofs.Lemmas.C10Asm
 
 namespace WinterProofs.C10
 open Model.Merkle
@@ -62,6 +63,23 @@ theorem single_shape_rejected (H : Hasher D) [DecidableEq D] (root : D) (i : Nat
   rw [if_pos h3]
 
 /-! ## Batch openings (`prove_batch` / `BatchMerkleProof::get_root` / `verify_batch`) -/
+
+/-- Completeness of the code-shaped prover and verifier: for every tree over `2^d` leaves
+    (`1 ≤ d ≤ 63`) and every non-empty duplicate-free list of at most 255 in-range positions, in any
+    order, `prove_batch` succeeds, the opening has the tree's depth and claims the committed leaves in
+    the order of the position list, `get_root` recomputes the root from it (consuming every node of
+    the opening) and `verify_batch` accepts it. -/
+theorem batch_complete (H : Hasher D) [DecidableEq D] (leaves : List D) (d : Nat)
+    (hd1 : 1 ≤ d) (hd2 : d ≤ 63) (hl : leaves.length = 2 ^ d) (idxs : List Nat) (hne : idxs ≠ [])
+    (hlen : idxs.length ≤ 255) (hnd : idxs.Nodup) (hr : ∀ i ∈ idxs, i < 2 ^ d) :
+    ∃ root p, (treeOf H leaves).root = .ok root ∧ proveBatch H (treeOf H leaves) idxs = .ok p ∧
+      p.depth = d ∧ p.leaves.length = idxs.length ∧
+      (∀ j (hj : j < idxs.length), p.leaves[j]? = leaves[idxs[j]]?) ∧
+      getRoot H p idxs = .ok root ∧ verifyBatch H root idxs p = .ok () := by
+  have wf : TreeWF H (treeOf H leaves) d := tree_wf H leaves d hd1 hl
+  obtain ⟨root, hr1, hr2⟩ := root_of_wf H _ d wf
+  obtain ⟨p, h1, h2, h3, h4, h5⟩ := batch_complete_wf H _ d wf hd2 idxs hne hlen hnd hr root hr1
+  exact ⟨root, p, hr2, h1, h2, h3, h4, h5, verifyBatch_of_getRoot H root idxs p h5⟩
 
 /-- Binding of the code-shaped verifier: if `merge` is collision free and `verify_batch` accepts an
     opening of the tree's depth against the tree's root, then the positions are distinct and in range
